@@ -158,7 +158,7 @@ func genC06(r *Rng, tier string) []Case {
 		ver := []bver.Version{bver.VersionB1, bver.VersionB2}[bi%2]
 		b := &bundle.Bundle{Version: ver, PrimaryURL: mustURL("https://example.com/")}
 		for j := 0; j < 2+r.Intn(4); j++ {
-			b.Exchanges = append(b.Exchanges, mkEx("https://"+hosts[r.Intn(len(hosts))]+"/r"+string(alnumBytes(r, 4)), []int{0, 1, 16, 33, 100}[r.Intn(5)]))
+			b.Exchanges = append(b.Exchanges, mkEx("https://"+hosts[r.Intn(len(hosts))]+"/r"+string(alnumBytes(r, 4))+[]string{"", "", "/%7Eu/x", "/a%2Fb", "/caf%c3%a9", "/p%41", "?q=%7e", "/x%20y"}[r.Intn(8)], []int{0, 1, 16, 33, 100}[r.Intn(5)]))
 		}
 		b.Exchanges = append(b.Exchanges, mkEx("https://example.com/", 10))
 		if bi%4 == 1 { // two representations of one URL (a variant set): the signer supports one exchange per URL only
